@@ -54,15 +54,45 @@ Theorem C19_filterfalse_agrees : forall (p : Z -> bool) (s : src),
 Proof. exact filterfalse_agrees. Qed.
 Print Assumptions C19_filterfalse_agrees.
 
-Theorem C19_groupby_agrees : forall (key : Z -> Z) (s : src),
-  outcome (groupby_model key s) = groupby_spec key (snd s).
+(* `same` is the test applied to consecutive keys (identity-or-equality in Python): an arbitrary relation *)
+Theorem C19_groupby_agrees : forall (same : Z -> Z -> bool) (key : Z -> Z) (s : src),
+  outcome (groupby_model same key s) = groupby_spec same key (snd s).
 Proof. exact groupby_agrees. Qed.
 Print Assumptions C19_groupby_agrees.
+
+Theorem C19_groupby_pre_F35_refuted_pinned :
+  exists key s, outcome (groupby_model eq_only key s) <> groupby_spec same_obj key (snd s).
+Proof. exact groupby_pre_F35_refuted_pinned. Qed.
+Print Assumptions C19_groupby_pre_F35_refuted_pinned.
 
 Theorem C19_islice_agrees : forall (args : list (option Z)) (s : src),
   outcome (islice_model args s) = islice_spec args (snd s).
 Proof. exact islice_agrees. Qed.
 Print Assumptions C19_islice_agrees.
+
+(* consumption of the source by islice (Nx events), for all start, stop, step: min(len + 1, max(start, stop)) polls,
+   i.e. exactly min(len, max(start, stop)) elements (islice_consumed) *)
+Theorem C19_islice_consumption : forall (a b c : option Z) (s : src),
+  snd (islice_model [a; b; c] s) = None ->
+  count_next (fst (islice_model [a; b; c] s)) =
+    match b with
+    | None => S (length (snd s))
+    | Some st => Nat.min (S (length (snd s))) (Z.to_nat (Z.max (dflt 0 a) st))
+    end /\
+  Nat.min (count_next (fst (islice_model [a; b; c] s))) (length (snd s)) = islice_consumed [a; b; c] (snd s).
+Proof. exact islice_consumption. Qed.
+Print Assumptions C19_islice_consumption.
+
+Theorem C19_islice_then_rest_agrees : forall (outer : kind) (args : list (option Z)) (s : src),
+  outcome (islice_then_rest_model outer args s) = islice_then_rest_spec args (snd s).
+Proof. exact islice_then_rest_agrees. Qed.
+Print Assumptions C19_islice_then_rest_agrees.
+
+Theorem C19_islice_pre_F36_refuted_pinned :
+  exists args s, snd (islice_model_pre_F36 args s) = None /\
+                 Nat.min (count_next (fst (islice_model_pre_F36 args s))) (length (snd s)) <> islice_consumed args (snd s).
+Proof. exact islice_pre_F36_refuted_pinned. Qed.
+Print Assumptions C19_islice_pre_F36_refuted_pinned.
 
 Theorem C19_pairwise_agrees : forall (s : src),
   outcome (pairwise_model s) = pairwise_spec (snd s).
